@@ -406,7 +406,13 @@ int aws_base64_decode(const struct aws_byte_cursor *AWS_RESTRICT to_decode, stru
             output->buffer[buffer_index++] = (uint8_t)(((value2 << 4) & 0xF0) | ((value3 >> 2) & 0x0F));
             if (value4 != BASE64_SENTINEL_VALUE) {
                 output->buffer[buffer_index] = (uint8_t)((value3 & 0x03) << 6 | value4);
+            } else if (value3 & 0x03) {
+                /* "xxx=": the bits that do not belong to a whole byte must be zero */
+                return aws_raise_error(AWS_ERROR_INVALID_BASE64_STR);
             }
+        } else if (value4 != BASE64_SENTINEL_VALUE || (value2 & 0x0F)) {
+            /* "xx=x" is not valid padding; "xx==": the bits that do not belong to a whole byte must be zero */
+            return aws_raise_error(AWS_ERROR_INVALID_BASE64_STR);
         }
     }
     output->len = decoded_length;
